@@ -141,6 +141,68 @@ def dispRun (cfg : Cfg) : DispSt → List DispEv → DispSt × List Out
     let (s2, os) := dispRun cfg s1 es
     (s2, o :: os)
 
+/-! ### 11c. `callHandler`: the table of outbound connections
+
+An entry is stored under the member id that was DIALLED and removed (when `client.run` returns)
+under the id the peer ANNOUNCED in its handshake `ID` message. Member ids are numbers here; `0` is
+"no id announced". -/
+
+inductive ConnEv where
+  /-- a request to member `x` that has no entry: dial, handshake (`hsOK`: it completes — a peer that
+  hangs up, sends junk or announces the node's own id makes it fail), the peer announces id `a` -/
+  | dial (x a : Nat) (hsOK : Bool)
+  /-- the connection stored under `x` ends (peer hangs up, read error, idle timeout) -/
+  | hangup (x : Nat)
+  /-- a request to member `x`, whose endpoint is honest now -/
+  | req (x : Nat)
+  deriving DecidableEq, Repr
+
+structure ConnEntry where
+  key : Nat        -- dialled id the entry is stored under
+  ann : Nat        -- id the peer announced
+  dead : Bool      -- its connection has ended
+  deriving DecidableEq, Repr
+
+structure ConnSt where
+  tab : List ConnEntry := []
+  alive : Bool := true
+  deriving Repr
+
+def connFind (k : Nat) (t : List ConnEntry) : Option ConnEntry := t.find? (fun e => e.key == k)
+
+def connDial (cfg : Cfg) (s : ConnSt) (x a : Nat) (hsOK : Bool) : ConnSt × Out :=
+  match connFind x s.tab with
+  | some e => (s, if e.dead then .err "stale" else .ok "reuse")
+  | none =>
+    if !hsOK then (s, .err "handshake")
+    else if cfg.callIdMatch && a != x then (s, .err "mismatch")
+    else ({ s with tab := ⟨x, a, false⟩ :: s.tab }, .ok "dialled")
+
+def connStep (cfg : Cfg) (s : ConnSt) : ConnEv → ConnSt × Out
+  | .dial x a hsOK => if !s.alive then (s, .dropped) else connDial cfg s x a hsOK
+  | .req x => if !s.alive then (s, .dropped) else connDial cfg s x x true
+  | .hangup x => if !s.alive then (s, .dropped) else
+    match connFind x s.tab with
+    | none => (s, .dropped)
+    | some e =>
+      if e.dead then (s, .dropped)
+      else
+        -- runClient: removeCallingC <- c.remoteID (the announced id)
+        let markDead : List ConnEntry → List ConnEntry :=
+          List.map (fun f => if f.key == x then ConnEntry.mk f.key f.ann true else f)
+        match connFind e.ann s.tab with
+        | some _ => (ConnSt.mk (markDead (s.tab.filter (fun f => f.key != e.ann))) s.alive, .ok "removed")
+        | none =>
+          if cfg.callRemoveNil then (ConnSt.mk (markDead s.tab) s.alive, .ok "kept")
+          else (ConnSt.mk s.tab false, .panic "p2p.server.callHandler|deref|c.conn")
+
+def connRun (cfg : Cfg) : ConnSt → List ConnEv → ConnSt × List Out
+  | s, [] => (s, [])
+  | s, e :: es =>
+    let (s1, o) := connStep cfg s e
+    let (s2, os) := connRun cfg s1 es
+    (s2, o :: os)
+
 /-! ### 12. `messageDispatch` -/
 
 inductive Feed where
